@@ -35,7 +35,11 @@ def handleIns (st : St) (op : String) (j : Json) : Option (D (St × Json)) :=
       let trivial := fitsTriviallyO S d p p ⟨[n], 0, 0⟩ == some true
       return (st, Json.mkObj [("ok", Json.bool (insertGuard S d p n && textStableC S)),
         ("boundary", Json.bool boundary), ("inside", Json.bool (insideTextGuard S d p [n])), ("marks", Json.bool marks),
-        ("trivial", Json.bool trivial), ("stripped", eNode (strippedAt S d p n))])
+        ("trivial", Json.bool trivial), ("stripped", eNode (strippedAt S d p n)),
+        -- the hypothesis of `insertPoint_insert_succeeds_marked_partial`, on the model's Fitter
+        ("fit", Json.bool (match replaceStep S d p p ⟨[n], 0, 0⟩ with
+          | .ok (some (.replace f t sl false)) => f == p && t == p && sl == ⟨[strippedAt S d p n], 0, 0⟩
+          | _ => false))])
     -- `dropPoint_drop_applies_closed`: closed slice, answered by the first pass, `dropGuard`, `TextStable`
     | "drop" =>
       let sl ← slice (← field j "slice")
